@@ -12,10 +12,16 @@
    Definitions only; proofs are in ConfigProofs.v. *)
 Require Import TeosModel.Base.
 Require Export TeosModel.ConfigSyntax.
-Local Open Scope string_scope.
 Local Open Scope N_scope.
 
 (* ---------- small decidable equalities ---------- *)
+Fixpoint text_eqb (a b : text) : bool :=
+  match a, b with
+  | [], [] => true
+  | x :: a', y :: b' => Ascii.eqb x y && text_eqb a' b'
+  | _, _ => false
+  end.
+
 Definition cty_eqb (a b : cty) : bool :=
   match a, b with
   | TStr, TStr | TU8, TU8 | TU16, TU16 | TU32, TU32 | TU64, TU64 | TBool, TBool => true
@@ -24,7 +30,7 @@ Definition cty_eqb (a b : cty) : bool :=
 
 Definition cval_eqb (a b : cval) : bool :=
   match a, b with
-  | VStr x, VStr y => String.eqb x y
+  | VStr x, VStr y => text_eqb x y
   | VNum x, VNum y => N.eqb x y
   | VBool x, VBool y => Bool.eqb x y
   | _, _ => false
@@ -36,50 +42,50 @@ Definition auth_eqb (a b : auth) : bool :=
   | _, _ => false
   end.
 
-Definition mem_str (k : string) (l : list string) : bool := existsb (String.eqb k) l.
+Definition mem_str (k : text) (l : list text) : bool := existsb (text_eqb k) l.
 
-Fixpoint nodup_str (l : list string) : bool :=
+Fixpoint nodup_str (l : list text) : bool :=
   match l with
   | [] => true
   | x :: r => negb (mem_str x r) && nodup_str r
   end.
 
 (* ---------- layers: partial assignments name -> value (first binding wins) ---------- *)
-Definition layer := list (string * cval).
+Definition layer := list (text * cval).
 
-Fixpoint lget (l : layer) (k : string) : option cval :=
+Fixpoint lget (l : layer) (k : text) : option cval :=
   match l with
   | [] => None
-  | (k', v) :: r => if String.eqb k k' then Some v else lget r k
+  | (k', v) :: r => if text_eqb k k' then Some v else lget r k
   end.
 
 (* the command line after structopt parsed it: the `Option<T>` options that were given, with their
    values, and the flags that were given *)
-Record cli := mk_cli { cl_vals : layer; cl_flags : list string }.
-Definition cli_val (cl : cli) (o : string) : option cval := lget (cl_vals cl) o.
-Definition cli_flag (cl : cli) (o : string) : bool := mem_str o (cl_flags cl).
+Record cli := mk_cli { cl_vals : layer; cl_flags : list text }.
+Definition cli_val (cl : cli) (o : text) : option cval := lget (cl_vals cl) o.
+Definition cli_flag (cl : cli) (o : text) : bool := mem_str o (cl_flags cl).
 
 (* a Config value: a total assignment, represented as a layer that binds every field; an assignment
    `self.f = v` conses a new binding *)
 Definition config := layer.
-Definition cget (c : config) (k : string) : cval :=
+Definition cget (c : config) (k : text) : cval :=
   match lget c k with Some v => v | None => VBool false end.
-Definition cset (c : config) (k : string) (v : cval) : config := (k, v) :: c.
+Definition cset (c : config) (k : text) (v : cval) : config := (k, v) :: c.
 
 Definition as_bool (v : cval) : bool := match v with VBool b => b | _ => false end.
-Definition str_of (v : cval) : string := match v with VStr s => s | _ => "" end.
+Definition str_of (v : cval) : text := match v with VStr s => s | _ => [] end.
 Definition num_of (v : cval) : N := match v with VNum n => n | _ => 0 end.
 
-Fixpoint find_field (fs : list fieldd) (k : string) : option fieldd :=
+Fixpoint find_field (fs : list fieldd) (k : text) : option fieldd :=
   match fs with
   | [] => None
-  | f :: r => if String.eqb k (f_name f) then Some f else find_field r k
+  | f :: r => if text_eqb k (f_name f) then Some f else find_field r k
   end.
 
-Fixpoint find_opt (os : list optd) (k : string) : option okind :=
+Fixpoint find_opt (os : list optd) (k : text) : option okind :=
   match os with
   | [] => None
-  | o :: r => if String.eqb k (o_name o) then Some (o_kind o) else find_opt r k
+  | o :: r => if text_eqb k (o_name o) then Some (o_kind o) else find_opt r k
   end.
 
 (* ---------- load: from_file::<Config>(path) ----------
@@ -103,7 +109,7 @@ Definition ty_ok (t : cty) (v : cval) : bool :=
   | _, _ => false
   end.
 
-Definition entry_ok (fs : list fieldd) (kv : string * cval) : bool :=
+Definition entry_ok (fs : list fieldd) (kv : text * cval) : bool :=
   match find_field fs (fst kv) with
   | Some f => f_skip f || ty_ok (f_ty f) (snd kv)
   | None => true
@@ -120,13 +126,15 @@ Definition file_seen (D : descr) (file : option layer) : layer :=
   | None => []
   end.
 
-Definition load (D : descr) (file : option layer) : config :=
+Definition load_from (seen : layer) (fs : list fieldd) : config :=
   map (fun f => (f_name f,
                  if f_skip f then f_default f
-                 else match lget (file_seen D file) (f_name f) with
+                 else match lget seen (f_name f) with
                       | Some v => v
                       | None => f_default f
-                      end)) (d_fields D).
+                      end)) fs.
+
+Definition load (D : descr) (file : option layer) : config := load_from (file_seen D file) (d_fields D).
 
 (* ---------- patch: patch_with_options ---------- *)
 Definition exec_p (cl : cli) (c : config) (s : pstmt) : config :=
@@ -140,7 +148,7 @@ Definition patch (D : descr) (cl : cli) (c : config) : config := fold_left (exec
 
 (* ---------- get_auth_method ---------- *)
 Definition is_empty_val (v : cval) : bool :=
-  match v with VStr EmptyString => true | _ => false end.
+  match v with VStr [] => true | _ => false end.
 
 Fixpoint row_matches (pat : list (option bool)) (bs : list bool) : bool :=
   match pat, bs with
@@ -160,22 +168,16 @@ Definition auth_of (V : vdescr) (c : config) : auth :=
   auth_lookup (v_auth_rows V) (map (fun f => is_empty_val (cget c f)) (v_scrutinee V)).
 
 (* ---------- str::trim_end_matches(pattern) for a non-empty string pattern ---------- *)
-Fixpoint rev_str (s acc : string) : string :=
-  match s with
-  | EmptyString => acc
-  | String ch r => rev_str r (String ch acc)
-  end.
-
-Fixpoint strip_prefix (p s : string) : option string :=
+Fixpoint strip_prefix (p s : text) : option text :=
   match p with
-  | EmptyString => Some s
-  | String a p' => match s with
-                   | String b s' => if Ascii.eqb a b then strip_prefix p' s' else None
-                   | EmptyString => None
-                   end
+  | [] => Some s
+  | a :: p' => match s with
+               | b :: s' => if Ascii.eqb a b then strip_prefix p' s' else None
+               | [] => None
+               end
   end.
 
-Fixpoint trim_start_fuel (fuel : nat) (p s : string) : string :=
+Fixpoint trim_start_fuel (fuel : nat) (p s : text) : text :=
   match fuel with
   | O => s
   | S k => match strip_prefix p s with
@@ -184,19 +186,19 @@ Fixpoint trim_start_fuel (fuel : nat) (p s : string) : string :=
            end
   end.
 
-Definition trim_end_matches (s suffix : string) : string :=
+Definition trim_end_matches (s suffix : text) : text :=
   match suffix with
-  | EmptyString => s
-  | _ => rev_str (trim_start_fuel (String.length s) (rev_str suffix "") (rev_str s "")) ""
+  | [] => s
+  | _ => rev (trim_start_fuel (length s) (rev suffix) (rev s))
   end.
 
 (* ---------- verify ---------- *)
-Inductive vresult := VOk | VErr (msg : string).
+Inductive vresult := VOk | VErr (msg : text).
 
-Fixpoint slookup (rows : list (string * N)) (k : string) : option N :=
+Fixpoint slookup (rows : list (text * N)) (k : text) : option N :=
   match rows with
   | [] => None
-  | (k', p) :: r => if String.eqb k k' then Some p else slookup r k
+  | (k', p) :: r => if text_eqb k k' then Some p else slookup r k
   end.
 
 (* dp is the local `default_rpc_port` *)
@@ -234,29 +236,30 @@ Definition run_cli (D : descr) (file : option layer) (cl : cli) : config := patc
    ===================================================================================== *)
 
 (* the two destructive one-shot switches *)
-Definition one_shot_names : list string := ["overwrite_key"; "force_update"].
+Definition one_shot_names : list text := Eval vm_compute in [T "overwrite_key"; T "force_update"].
 
 (* "given on the command line": an Option<T> option given with a value; a flag that is set *)
-Definition cli_given (D : descr) (cl : cli) (name : string) : option cval :=
+Definition cli_given (D : descr) (cl : cli) (name : text) : option cval :=
   match find_opt (d_opts D) name with
   | Some (OValue _) => cli_val cl name
   | Some OFlag => if cli_flag cl name then Some (VBool true) else None
   | _ => None
   end.
 
-(* precedence with respect to a table of defaults *)
-Definition spec_value_with (dflt : fieldd -> cval) (D : descr) (os : list string)
-           (file : option layer) (cl : cli) (f : fieldd) : cval :=
+(* precedence with respect to a table of defaults; `seen` is what the daemon takes from the file *)
+Definition spec_value_with (dflt : fieldd -> cval) (D : descr) (os : list text)
+           (seen : layer) (cl : cli) (f : fieldd) : cval :=
   if mem_str (f_name f) os then VBool (cli_flag cl (f_name f))
   else match cli_given D cl (f_name f) with
        | Some v => v
-       | None => match lget (file_seen D file) (f_name f) with
+       | None => match lget seen (f_name f) with
                  | Some v => v
                  | None => dflt f
                  end
        end.
 
-Definition spec_value := spec_value_with f_default.
+Definition spec_value (D : descr) (os : list text) (file : option layer) (cl : cli) (f : fieldd) : cval :=
+  spec_value_with f_default D os (file_seen D file) cl f.
 
 (* the command line a parsed `Opt` can describe: values only for Option<T> options, flags only for
    bool options (structopt guarantees it) *)
@@ -266,14 +269,14 @@ Definition cli_ok (D : descr) (cl : cli) : bool :=
   forallb (fun n => match find_opt (d_opts D) n with Some OFlag => true | _ => false end) (cl_flags cl).
 
 (* ----- the statements of patch_with_options that write a given field, as value transformers ----- *)
-Inductive wr := WIfSome (o : string) | WOr (o : string) | WAssign (o : string).
+Inductive wr := WIfSome (o : text) | WOr (o : text) | WAssign (o : text).
 
-Definition target (s : pstmt) : string :=
+Definition target (s : pstmt) : text :=
   match s with PIfSome c _ | POrAssign c _ | PAssign c _ => c end.
 Definition wr_of (s : pstmt) : wr :=
   match s with PIfSome _ o => WIfSome o | POrAssign _ o => WOr o | PAssign _ o => WAssign o end.
-Definition writes (n : string) (stmts : list pstmt) : list wr :=
-  map wr_of (filter (fun s => String.eqb (target s) n) stmts).
+Definition writes (n : text) (stmts : list pstmt) : list wr :=
+  map wr_of (filter (fun s => text_eqb (target s) n) stmts).
 Definition apply_w (cl : cli) (v : cval) (w : wr) : cval :=
   match w with
   | WIfSome o => match cli_val cl o with Some x => x | None => v end
@@ -283,7 +286,7 @@ Definition apply_w (cl : cli) (v : cval) (w : wr) : cval :=
 
 Definition wr_eqb (a b : wr) : bool :=
   match a, b with
-  | WIfSome x, WIfSome y | WOr x, WOr y | WAssign x, WAssign y => String.eqb x y
+  | WIfSome x, WIfSome y | WOr x, WOr y | WAssign x, WAssign y => text_eqb x y
   | _, _ => false
   end.
 Fixpoint wrs_eqb (a b : list wr) : bool :=
@@ -300,7 +303,7 @@ Fixpoint wrs_eqb (a b : list wr) : bool :=
    every field without option is never written; none of them is #[serde(skip)]; the one-shot switches
    are bool flags written exactly once by the plain assignment `self.n = options.n` (or are never read
    from the file, default false, and or-ed). *)
-Definition field_conforms (D : descr) (os : list string) (f : fieldd) : bool :=
+Definition field_conforms (D : descr) (os : list text) (f : fieldd) : bool :=
   let n := f_name f in
   let ws := writes n (d_patch D) in
   ty_ok (f_ty f) (f_default f) &&
@@ -318,24 +321,24 @@ Definition field_conforms (D : descr) (os : list string) (f : fieldd) : bool :=
      | None => wrs_eqb ws []
      end).
 
-Definition conforms (D : descr) (os : list string) : bool :=
+Definition conforms (D : descr) (os : list text) : bool :=
   nodup_str (map f_name (d_fields D)) &&
   forallb (field_conforms D os) (d_fields D) &&
   forallb (fun n => mem_str n (map f_name (d_fields D))) os.
 
 (* ----- verify: the shape the generated statement list has, and what it means ----- *)
 Record vshape := mk_vshape {
-  vs_rej : list (auth * string);      (* rejected auth methods with their messages *)
-  vs_netf : string;                   (* the network field *)
-  vs_names : list string;             (* names that are normalised ... *)
-  vs_suffix : string;                 (* ... by trimming this suffix *)
-  vs_rows : list (string * N);        (* normalised network -> default RPC port *)
-  vs_msg : string;                    (* message for an unrecognised network *)
-  vs_portf : string;                  (* the port field *)
+  vs_rej : list (auth * text);      (* rejected auth methods with their messages *)
+  vs_netf : text;                   (* the network field *)
+  vs_names : list text;             (* names that are normalised ... *)
+  vs_suffix : text;                 (* ... by trimming this suffix *)
+  vs_rows : list (text * N);        (* normalised network -> default RPC port *)
+  vs_msg : text;                    (* message for an unrecognised network *)
+  vs_portf : text;                  (* the port field *)
   vs_unset : N                        (* the value of the port field that means "not set" *)
 }.
 
-Fixpoint take_rejects (stmts : list vstmt) : list (auth * string) * list vstmt :=
+Fixpoint take_rejects (stmts : list vstmt) : list (auth * text) * list vstmt :=
   match stmts with
   | VRejectAuth a m :: r => let (x, y) := take_rejects r in ((a, m) :: x, y)
   | _ => ([], stmts)
@@ -345,7 +348,7 @@ Definition verify_shape (stmts : list vstmt) : option vshape :=
   let (rej, rest) := take_rejects stmts in
   match rest with
   | [VNormalize f names suf; VPortMatch f' rows msg; VPortIfUnset p unset] =>
-      if String.eqb f f' && negb (String.eqb f p) then Some (mk_vshape rej f names suf rows msg p unset)
+      if text_eqb f f' && negb (text_eqb f p) then Some (mk_vshape rej f names suf rows msg p unset)
       else None
   | _ => None
   end.
@@ -356,17 +359,17 @@ Definition shape_stmts (sh : vshape) : list vstmt :=
    VPortMatch (vs_netf sh) (vs_rows sh) (vs_msg sh);
    VPortIfUnset (vs_portf sh) (vs_unset sh)].
 
-Definition norm_net (sh : vshape) (net : string) : string :=
+Definition norm_net (sh : vshape) (net : text) : text :=
   if mem_str net (vs_names sh) then trim_end_matches net (vs_suffix sh) else net.
 
 (* the default RPC port the network name selects (None: the name is refused) *)
-Definition port_of (sh : vshape) (net : string) : option N := slookup (vs_rows sh) (norm_net sh net).
+Definition port_of (sh : vshape) (net : text) : option N := slookup (vs_rows sh) (norm_net sh net).
 
-Definition network_accepted (sh : vshape) (net : string) : bool :=
+Definition network_accepted (sh : vshape) (net : text) : bool :=
   match port_of sh net with Some _ => true | None => false end.
 
 (* every name verify accepts: computed from the generated tables *)
-Definition accepted_networks (sh : vshape) : list string :=
+Definition accepted_networks (sh : vshape) : list text :=
   filter (network_accepted sh) (vs_names sh ++ map fst (vs_rows sh)).
 
 (* the decision of get_auth_method + the reject statements as a function of
@@ -390,11 +393,11 @@ Definition auth_table_ok (V : vdescr) (sh : vshape) : bool :=
 
 (* ----- the documentation the monitor compares with ----- *)
 Record docs := mk_docs {
-  dc_one_shot : list string;
+  dc_one_shot : list text;
   dc_template : layer;                         (* conf_template.toml (generated) *)
   dc_fixed : layer;                            (* settings whose documented default is "not set" *)
-  dc_networks : list (string * (string * N));  (* documented name, bitcoind chain name, RPC port *)
-  dc_user : string; dc_password : string; dc_cookie : string; dc_network : string; dc_port : string
+  dc_networks : list (text * (text * N));  (* documented name, bitcoind chain name, RPC port *)
+  dc_user : text; dc_password : text; dc_cookie : text; dc_network : text; dc_port : text
 }.
 
 Definition doc_default (Dc : docs) (f : fieldd) : cval :=
@@ -406,13 +409,13 @@ Definition doc_default (Dc : docs) (f : fieldd) : cval :=
             end
   end.
 
-Fixpoint doc_row (rows : list (string * (string * N))) (net : string) : option (string * N) :=
+Fixpoint doc_row (rows : list (text * (text * N))) (net : text) : option (text * N) :=
   match rows with
   | [] => None
-  | (n, (chain, p)) :: r => if String.eqb net n || String.eqb net chain then Some (chain, p) else doc_row r net
+  | (n, (chain, p)) :: r => if text_eqb net n || text_eqb net chain then Some (chain, p) else doc_row r net
   end.
 
-Definition doc_documented (Dc : docs) (net : string) : bool := mem_str net (map fst (dc_networks Dc)).
+Definition doc_documented (Dc : docs) (net : text) : bool := mem_str net (map fst (dc_networks Dc)).
 
 (* the descriptors agree with the documentation (evaluated on the generated data) *)
 Definition defaults_documented (D : descr) (Dc : docs) : bool :=
@@ -420,34 +423,44 @@ Definition defaults_documented (D : descr) (Dc : docs) : bool :=
 
 Definition networks_documented (sh : vshape) (Dc : docs) : bool :=
   N.eqb (vs_unset sh) 0 &&
-  String.eqb (vs_netf sh) (dc_network Dc) && String.eqb (vs_portf sh) (dc_port Dc) &&
+  text_eqb (vs_netf sh) (dc_network Dc) && text_eqb (vs_portf sh) (dc_port Dc) &&
   forallb (fun net => match doc_row (dc_networks Dc) net with Some _ => true | None => false end)
           (accepted_networks sh) &&
   forallb (fun row => let '(n, (chain, p)) := row in
              forallb (fun net =>
                match doc_row (dc_networks Dc) net, port_of sh net with
-               | Some (chain', p'), Some q => String.eqb (norm_net sh net) chain' && N.eqb q p'
+               | Some (chain', p'), Some q => text_eqb (norm_net sh net) chain' && N.eqb q p'
                | _, _ => false
                end) [n; chain])
           (dc_networks Dc).
 
 Definition scrutinee_documented (V : vdescr) (Dc : docs) : bool :=
   match v_scrutinee V with
-  | [a; b; c] => String.eqb a (dc_user Dc) && String.eqb b (dc_password Dc) && String.eqb c (dc_cookie Dc)
+  | [a; b; c] => text_eqb a (dc_user Dc) && text_eqb b (dc_password Dc) && text_eqb c (dc_cookie Dc)
   | _ => false
   end.
 
 (* ----- the monitor: the statement of C20 evaluated on one observed outcome -----
    Returns the labels of the clauses that do not hold ([] = the property holds on this case). *)
-Definition check (b : bool) (label : string) : list string := if b then [] else [label].
+Definition check (b : bool) (label : text) : list text := if b then [] else [label].
 
-Definition mon_precedence (D : descr) (Dc : docs) (file : option layer) (cl : cli) (p : config) : list string :=
+Definition lbl_one_shot : text := Eval vm_compute in T "one_shot:".
+Definition lbl_precedence : text := Eval vm_compute in T "precedence:".
+Definition lbl_refused_valid : text := Eval vm_compute in T "refused_valid".
+Definition lbl_accepted_bad_auth : text := Eval vm_compute in T "accepted_bad_auth".
+Definition lbl_accepted_unknown_network : text := Eval vm_compute in T "accepted_unknown_network".
+Definition lbl_port : text := Eval vm_compute in T "port".
+Definition lbl_network_name : text := Eval vm_compute in T "network_name".
+Definition lbl_changed_by_verify : text := Eval vm_compute in T "changed_by_verify:".
+
+Definition mon_precedence (D : descr) (Dc : docs) (file : option layer) (cl : cli) (p : config) : list text :=
+  let seen := file_seen D file in
   flat_map (fun f =>
-    check (cval_eqb (cget p (f_name f)) (spec_value_with (doc_default Dc) D (dc_one_shot Dc) file cl f))
-          ((if mem_str (f_name f) (dc_one_shot Dc) then "one_shot:" else "precedence:") ++ f_name f))
+    check (cval_eqb (cget p (f_name f)) (spec_value_with (doc_default Dc) D (dc_one_shot Dc) seen cl f))
+          ((if mem_str (f_name f) (dc_one_shot Dc) then lbl_one_shot else lbl_precedence) ++ f_name f))
     (d_fields D).
 
-Definition mon_verify (D : descr) (Dc : docs) (oc : outcome) : list string :=
+Definition mon_verify (D : descr) (Dc : docs) (oc : outcome) : list text :=
   let p := oc_patched oc in
   let f := oc_final oc in
   let eu := is_empty_val (cget p (dc_user Dc)) in
@@ -458,36 +471,43 @@ Definition mon_verify (D : descr) (Dc : docs) (oc : outcome) : list string :=
   match oc_result oc with
   | VErr _ =>
       (* a documented network with exactly one cleanly configured method must not be refused *)
-      check (negb (clean_auth eu ep ek && doc_documented Dc net)) "refused_valid"
+      check (negb (clean_auth eu ep ek && doc_documented Dc net)) lbl_refused_valid
   | VOk =>
-      check (exactly_one_auth eu ep ek) "accepted_bad_auth" ++
+      check (exactly_one_auth eu ep ek) lbl_accepted_bad_auth ++
       match doc_row (dc_networks Dc) net with
-      | None => ["accepted_unknown_network"]
+      | None => [lbl_accepted_unknown_network]
       | Some (chain, dport) =>
-          check (N.eqb (num_of (cget f (dc_port Dc))) (if N.eqb port 0 then dport else port)) "port" ++
-          check (String.eqb (str_of (cget f (dc_network Dc))) chain) "network_name"
+          check (N.eqb (num_of (cget f (dc_port Dc))) (if N.eqb port 0 then dport else port)) lbl_port ++
+          check (text_eqb (str_of (cget f (dc_network Dc))) chain) lbl_network_name
       end ++
       flat_map (fun fd =>
-        if String.eqb (f_name fd) (dc_network Dc) || String.eqb (f_name fd) (dc_port Dc) then []
-        else check (cval_eqb (cget f (f_name fd)) (cget p (f_name fd))) ("changed_by_verify:" ++ f_name fd))
+        if text_eqb (f_name fd) (dc_network Dc) || text_eqb (f_name fd) (dc_port Dc) then []
+        else check (cval_eqb (cget f (f_name fd)) (cget p (f_name fd))) (lbl_changed_by_verify ++ f_name fd))
         (d_fields D)
   end.
 
-Definition mon_fails (D : descr) (Dc : docs) (file : option layer) (cl : cli) (oc : outcome) : list string :=
+Definition mon_fails (D : descr) (Dc : docs) (file : option layer) (cl : cli) (oc : outcome) : list text :=
   mon_precedence D Dc file cl (oc_patched oc) ++ mon_verify D Dc oc.
 
 (* teos-cli: precedence only *)
-Definition mon_fails_cli (D : descr) (Dc : docs) (file : option layer) (cl : cli) (c : config) : list string :=
+Definition mon_fails_cli (D : descr) (Dc : docs) (file : option layer) (cl : cli) (c : config) : list text :=
   mon_precedence D Dc file cl c.
 
 (* the hand-written part of the documentation: bitcoind's chain names and standard RPC ports, the
    names of the credential / network / port settings, and the settings that have no usable default *)
+Definition doc_fixed : layer := Eval vm_compute in
+  [(T "btc_rpc_user", VStr []); (T "btc_rpc_password", VStr []); (T "btc_rpc_cookie", VStr []); (T "btc_rpc_port", VNum 0)].
+Definition doc_networks : list (text * (text * N)) := Eval vm_compute in
+  [(T "mainnet", (T "main", 8332)); (T "testnet", (T "test", 18332));
+   (T "regtest", (T "regtest", 18443)); (T "signet", (T "signet", 38332))].
+Definition n_user : text := Eval vm_compute in T "btc_rpc_user".
+Definition n_password : text := Eval vm_compute in T "btc_rpc_password".
+Definition n_cookie : text := Eval vm_compute in T "btc_rpc_cookie".
+Definition n_network : text := Eval vm_compute in T "btc_network".
+Definition n_port : text := Eval vm_compute in T "btc_rpc_port".
+
 Definition teosd_docs (template : layer) : docs :=
-  mk_docs one_shot_names template
-    [("btc_rpc_user", VStr ""); ("btc_rpc_password", VStr ""); ("btc_rpc_cookie", VStr ""); ("btc_rpc_port", VNum 0)]
-    [("mainnet", ("main", 8332)); ("testnet", ("test", 18332)); ("regtest", ("regtest", 18443)); ("signet", ("signet", 38332))]
-    "btc_rpc_user" "btc_rpc_password" "btc_rpc_cookie" "btc_network" "btc_rpc_port".
+  mk_docs one_shot_names template doc_fixed doc_networks n_user n_password n_cookie n_network n_port.
 
 (* teos-cli shares teos.toml but documents its own defaults nowhere else than in cli_config.rs *)
-Definition cli_docs : docs :=
-  mk_docs [] [] [] [] "" "" "" "" "".
+Definition cli_docs : docs := mk_docs [] [] [] [] [] [] [] [] [].
